@@ -210,7 +210,8 @@ fn raw_case(out: &mut Out, path: &Path, bl: Option<usize>, h0: &[u64], h1: &[u64
                 apply(&mut w, op);
             }
         }
-        let len = w.len();
+        // is_empty() must agree with len() (reported as an impossible length if it does not)
+        let len = if w.is_empty() != (w.len() == 0) { usize::MAX } else { w.len() };
         drop(w);
         len
     });
@@ -293,7 +294,8 @@ fn int_case(out: &mut Out, path: &Path, bl: Option<usize>, width: usize, xs: &[u
                 w.push(*x);
             }
         }
-        let len = w.len();
+        // is_empty() must agree with len() (reported as an impossible length if it does not)
+        let len = if w.is_empty() != (w.len() == 0) { usize::MAX } else { w.len() };
         drop(w);
         len
     });
